@@ -7,11 +7,14 @@ import (
 	"os"
 	"runtime"
 	"runtime/debug"
+	"runtime/pprof"
 	"strconv"
 
 	"verif/harness/checks"
 	"verif/harness/ev"
 )
+
+var ballast []byte
 
 func main() {
 	if len(os.Args) < 3 {
@@ -38,7 +41,24 @@ func main() {
 		os.Exit(2)
 	}
 	seed, _ := strconv.ParseInt(os.Getenv("VERIF_SEED"), 10, 64)
-	debug.SetGCPercent(400)
+	// In this kind of VM garbage-collection cycles (stop-the-world hand-shakes) and first-touch page faults are
+	// expensive and serialise allocation-heavy workers. A pointer-free, never-touched ballast makes cycles rare
+	// (one per ~ballast bytes allocated) while the heap that is actually touched stays small and is reused.
+	ballast = make([]byte, 768<<20)
+	gcp := 100
+	if v, err := strconv.Atoi(os.Getenv("VERIF_GOGC")); err == nil {
+		gcp = v
+	}
+	debug.SetGCPercent(gcp)
+	if os.Getenv("VERIF_BLOCKPROF") != "" {
+		runtime.SetBlockProfileRate(1000)
+		runtime.SetMutexProfileFraction(10)
+	}
+	if pf := os.Getenv("VERIF_PROF"); pf != "" {
+		f, _ := os.Create(pf)
+		pprof.StartCPUProfile(f)
+		defer pprof.StopCPUProfile()
+	}
 	r := ev.NewRun(id, tier, seed, runtime.GOMAXPROCS(0))
 	r.ReplayFn = c.Replay
 	func() {
@@ -50,7 +70,23 @@ func main() {
 		}()
 		c.Run(r)
 	}()
-	os.Exit(r.Finish())
+	rc := r.Finish()
+	if bf := os.Getenv("VERIF_BLOCKPROF"); bf != "" {
+		f, _ := os.Create(bf)
+		pprof.Lookup("block").WriteTo(f, 0)
+		f.Close()
+		f, _ = os.Create(bf + ".mutex")
+		pprof.Lookup("mutex").WriteTo(f, 0)
+		f.Close()
+	}
+	if mf := os.Getenv("VERIF_MEMPROF"); mf != "" {
+		f, _ := os.Create(mf)
+		pprof.Lookup("allocs").WriteTo(f, 0)
+		f.Close()
+	}
+	pprof.StopCPUProfile()
+	runtime.KeepAlive(ballast)
+	os.Exit(rc)
 }
 
 func replay(path string) int {
